@@ -13,7 +13,7 @@ import re
 GLOBAL_VARS = {"rg": 2, "rs": 3, "rc": 3}
 STAGE1_VARS = {"rs": 2}
 COMP_VARS = {"rc": 2}
-REP_RENDER = {"n1": 1, "n2": 2, "n3": 3, "vg": "%(rg)s", "vs": "%(rs)s", "vc": "%(rc)s"}
+REP_RENDER = {"n1": 1, "n2": 2, "n3": 3, "n11": 11, "vg": "%(rg)s", "vs": "%(rs)s", "vc": "%(rc)s"}
 TAILS = {"tail": ["/sub/f.txt"], "tail2": ["/x.txt", "/y.txt"]}
 
 
